@@ -7,7 +7,7 @@ SPEC = {
     "thorough_budget_s": 900,
     "chunk": 15,
     "rule": (
-        "one case = one seeded history on one document: source (each of the 4 templates, or a sample under tests/samples opened by path [lazy zip], pathlib.Path, BytesIO [eager], from a folder unzipped by the simulator [lazy + whole-second mtime cache, seeded listing order], or from a foreign-writer re-zip [other member order, stored/deflated mix, mimetype not first]) followed by <= 25 ops: touch a part (the cache-filling read), body/meta/style edits, set_part on XML parts before or after they were parsed (also XML with a comment before and a processing instruction after the root element) and on binary/new parts, touches of the files of a source folder (new mtime, same content), del_part, add_file (path / Path / BytesIO / short-read source; repeated content), save (zip|folder|flat xml x path|path without suffix|.folder|BytesIO|in place|pre-existing target, backup, cwd change, simulated clock advance/jump between ops; pretty=False) and reopen of an earlier artefact by every route (the restart: the reopened document continues the history). At every save that returns, the package is read by an independent zipfile/lxml reader and compared part by part with the in-memory document taken just before the call (live lxml tree of every parsed part written out by the harness - not by XmlPart.serialize -, stored bytes of the others per a last-writer-wins part-store model): same names, C14N-equal XML parts (generator stamp masked), byte-identical other parts; then every part is read back through odfdo and compared again. ~25% of the runs of the fault-injecting configuration place one OSError (ENOSPC/EIO/EACCES, optionally after a partial write) on the k-th writestr / zip read / write_bytes / read_bytes / rmtree / move / BytesIO write / mkdir of a save: the save may raise (then nothing is asserted on the torn target) but if it returns its result is judged as above. distinct = distinct run digest. non-trivial = >= 1 successful save and (>= 1 edit or >= 1 reopen)."
+        "one case = one seeded history on one document: source (each of the 4 templates, or a sample under tests/samples opened by path [lazy zip], pathlib.Path, BytesIO [eager], from a folder unzipped by the simulator [lazy + whole-second mtime cache, seeded listing order], or from a foreign-writer re-zip [other member order, stored/deflated mix, mimetype not first]) followed by <= 25 ops: touch a part (the cache-filling read), body/meta/style edits, set_part on XML parts before or after they were parsed (also XML with a comment before and a processing instruction after the root element) and on binary/new parts, touches of the files of a source folder (new mtime, same content), del_part, add_file (path / Path / BytesIO / short-read source; repeated content; the same path again after its file was rewritten), a generator chosen by the user (property or method), edits of embedded-object parts remembered by the harness, documents made with Document.new(<custom template>), save (zip|folder|flat xml x path|path without suffix|.folder|BytesIO|in place|pre-existing target, backup, cwd change, simulated clock advance/jump between ops; pretty=False) and reopen of an earlier artefact by every route (the restart: the reopened document continues the history). At every save that returns, the package is read by an independent zipfile/lxml reader and compared part by part with the in-memory document taken just before the call (live lxml tree of every parsed part written out by the harness - not by XmlPart.serialize -, stored bytes of the others per a last-writer-wins part-store model): same names, C14N-equal XML parts (generator stamp masked), byte-identical other parts; then every part is read back through odfdo and compared again. ~25% of the runs of the fault-injecting configuration place one OSError (ENOSPC/EIO/EACCES, optionally after a partial write) on the k-th writestr / zip read / write_bytes / read_bytes / rmtree / move / BytesIO write / mkdir of a save: the save may raise (then nothing is asserted on the torn target) but if it returns its result is judged as above. distinct = distinct run digest. non-trivial = >= 1 successful save and (>= 1 edit or >= 1 reopen)."
     ),
     "assumptions": [
         "the part-store model (engines/docsim.py PartStore) and the independent package reader (simkit/xmlref.py read_package, c14n) are trusted",
